@@ -79,6 +79,7 @@ type world struct {
 	dir string
 	m   *fakep11.Model
 	rsa *rsa.PrivateKey
+	ec  *ecdsa.PrivateKey
 	log *logger
 	r   *res.Result
 	// close-during-respawn: how long after the kill Close is called
@@ -102,7 +103,7 @@ func (w *world) cfg(name string, workers int, pin string, retries int) *config.C
 		so = "/verif/build/libfakep11.so"
 	}
 	y := fmt.Sprintf("tokens:\n  hsm:\n    type: pkcs11\n    provider: %s\n    label: tok\n    pin: %q\n    retries: %d\n    timeout: 20\n"+
-		"keys:\n  k1:\n    token: hsm\n    label: k1\n"+
+		"keys:\n  k1:\n    token: hsm\n    label: k1\n  k2:\n    token: hsm\n    label: k2\n"+
 		"server:\n  listen: \"127.0.0.1:0\"\n  numworkers: %d\n  tokencheckinterval: 1\n  tokenchecktimeout: 5\n  tokencacheseconds: -1\n  loglevel: error\n", so, pin, retries, workers)
 	p := filepath.Join(w.dir, name+".yml")
 	if err := os.WriteFile(p, []byte(y), 0600); err != nil {
@@ -257,6 +258,110 @@ var scenarios = []scenario{
 		w.expect(sc, err == nil, "the request in flight when Close began was lost: %v", err)
 		w.m.SetDelay("SignInit", 0)
 	}},
+	{name: "sign-options", workers: 1, pin: rightPin, retries: 2, wantNew: true, run: func(w *world, tok *worker.WorkerToken, sc *scenario) {
+		// what the caller asks for crosses the process boundary unchanged: the mechanism and parameters the token sees are
+		// those of a direct caller, the signature verifies under the caller's options
+		ctx, cancel := context.WithTimeout(context.Background(), 60*time.Second)
+		defer cancel()
+		type opt struct {
+			key  string
+			h    crypto.Hash
+			pss  bool
+			salt int
+			want string // mechanism as the token model prints it
+			bad  bool   // refused before the token is asked
+		}
+		opts := []opt{
+			{"k1", crypto.SHA256, false, 0, "RSA_PKCS", false}, {"k1", crypto.SHA384, false, 0, "RSA_PKCS", false}, {"k1", crypto.SHA512, false, 0, "RSA_PKCS", false},
+			{"k1", crypto.SHA256, true, rsa.PSSSaltLengthEqualsHash, "RSA_PKCS_PSS(SHA-256,mgf1-SHA-256,32)", false},
+			{"k1", crypto.SHA384, true, rsa.PSSSaltLengthEqualsHash, "RSA_PKCS_PSS(SHA-384,mgf1-SHA-384,48)", false},
+			{"k1", crypto.SHA256, true, rsa.PSSSaltLengthAuto, "RSA_PKCS_PSS(SHA-256,mgf1-SHA-256,222)", false},
+			{"k1", crypto.SHA256, true, 20, "RSA_PKCS_PSS(SHA-256,mgf1-SHA-256,20)", false},
+			{"k1", crypto.SHA512, true, 64, "RSA_PKCS_PSS(SHA-512,mgf1-SHA-512,64)", false},
+			{"k2", crypto.SHA256, false, 0, "ECDSA", false}, {"k2", crypto.SHA384, false, 0, "ECDSA", false},
+			{"k1", crypto.Hash(0), false, 0, "", true},
+		}
+		for i, o := range opts {
+			key, err := tok.GetKey(ctx, o.key)
+			if err != nil {
+				w.expect(sc, false, "getkey %s: %v", o.key, err)
+				continue
+			}
+			var digest []byte
+			if o.h != 0 {
+				d := o.h.New()
+				d.Write([]byte(fmt.Sprintf("sign-options %d", i)))
+				digest = d.Sum(nil)
+			} else {
+				digest = make([]byte, 32)
+			}
+			var so crypto.SignerOpts = o.h
+			if o.pss {
+				so = &rsa.PSSOptions{SaltLength: o.salt, Hash: o.h}
+			}
+			before := len(w.m.Transcript())
+			sig, err := key.SignContext(ctx, digest, so)
+			var inits []string
+			for _, e := range w.m.Transcript()[before:] {
+				if e.Fn == "SignInit" {
+					inits = append(inits, e.Arg)
+				}
+			}
+			if o.bad {
+				w.expect(sc, err != nil && len(inits) == 0, "options without a digest algorithm: err=%v, the token saw %v", err, inits)
+				continue
+			}
+			if err != nil {
+				w.expect(sc, false, "%s %v pss=%v salt=%d: %v", o.key, o.h, o.pss, o.salt, err)
+				continue
+			}
+			w.expect(sc, len(inits) == 1 && strings.HasPrefix(inits[0], o.want+" "), "%s %v pss=%v salt=%d: the token saw %v, a direct caller's mechanism is %s", o.key, o.h, o.pss, o.salt, inits, o.want)
+			var verr error
+			switch pub := key.Public().(type) {
+			case *rsa.PublicKey:
+				if o.pss {
+					verr = rsa.VerifyPSS(pub, o.h, digest, sig, &rsa.PSSOptions{SaltLength: o.salt, Hash: o.h})
+				} else {
+					verr = rsa.VerifyPKCS1v15(pub, o.h, digest, sig)
+				}
+			case *ecdsa.PublicKey:
+				if !ecdsa.VerifyASN1(pub, digest, sig) {
+					verr = fmt.Errorf("ECDSA signature does not verify")
+				}
+			}
+			w.expect(sc, verr == nil, "%s %v pss=%v salt=%d: the signature does not verify under the caller's options: %v", o.key, o.h, o.pss, o.salt, verr)
+		}
+		// a key object fetched before the key on the token was replaced stays bound to the key it was fetched for: it
+		// must not sign with the newcomer
+		old, err := tok.GetKey(ctx, "k1")
+		w.expect(sc, err == nil, "getkey: %v", err)
+		if err == nil {
+			oldPub := old.Public().(*rsa.PublicKey)
+			nk, _ := rsa.GenerateKey(rand.Reader, 2048)
+			w.m.ClearObjects()
+			w.m.AddKeyPair(0, "k1", []byte{9, 9}, nk)
+			d := sha256.Sum256([]byte("after rotation"))
+			sig, err := old.SignContext(ctx, d[:], crypto.SHA256)
+			if err == nil {
+				w.r.Eval(true)
+				if rsa.VerifyPKCS1v15(oldPub, crypto.SHA256, d[:], sig) != nil {
+					w.r.Fail(map[string]string{"engine": "worker-life", "scenario": sc.name, "kind": "pinned-key-replaced"}, map[string]any{"scenario": sc.name},
+						"scenario %s: a key object fetched before the key on the token was replaced signed with the key that replaced it (the signature verifies under the new key: %v)",
+						sc.name, rsa.VerifyPKCS1v15(&nk.PublicKey, crypto.SHA256, d[:], sig) == nil)
+				}
+			}
+			fresh, err := tok.GetKey(ctx, "k1")
+			w.expect(sc, err == nil, "getkey after the rotation: %v", err)
+			if err == nil {
+				sig, err := fresh.SignContext(ctx, d[:], crypto.SHA256)
+				w.expect(sc, err == nil && rsa.VerifyPKCS1v15(&nk.PublicKey, crypto.SHA256, d[:], sig) == nil, "the new key does not sign: %v", err)
+			}
+			// restore the world for the scenarios that follow
+			w.m.ClearObjects()
+			w.m.AddKeyPair(0, "k1", []byte{1}, w.rsa)
+			w.m.AddKeyPair(0, "k2", []byte{2}, w.ec)
+		}
+	}},
 	{name: "wrong-pin-at-start", workers: 1, pin: newPin, retries: 2, wantNew: false, run: nil},
 	{name: "respawn-slow-start", workers: 2, pin: rightPin, retries: 6, wantNew: true, run: func(w *world, tok *worker.WorkerToken, sc *scenario) {
 		// two workers share the listening socket. One is lost; its successor is slow to start. While the successor is
@@ -406,7 +511,7 @@ func Run(args []string) {
 	ek, _ := ecdsa.GenerateKey(elliptic.P256(), rand.Reader)
 	m.AddKeyPair(0, "k1", []byte{1}, rk)
 	m.AddKeyPair(0, "k2", []byte{2}, ek)
-	w := &world{dir: dir, m: m, rsa: rk, r: r}
+	w := &world{dir: dir, m: m, rsa: rk, ec: ek, r: r}
 	var list []scenario
 	for _, sc := range scenarios {
 		if sc.name == "close-during-respawn" {
